@@ -324,6 +324,8 @@ def check_normal_equations(inp) -> list:
     d, f = _dataset(inp, N)
     if inp.get("confine"):
         d[:, :, 1:] = 0.0          # rank-deficient by construction: displacements along x only
+    if inp.get("freeze_atom") is not None:
+        d[:, int(inp["freeze_atom"]) % N, :] = 0.0      # one atom is never displaced (finite-displacement style data)
     out = []
     try:
         got, _ = _fit(cr, orders, d, f, compact=False, cutoff=cutoff, batch_size=inp.get("batch_size"),
@@ -407,6 +409,14 @@ def check_fit_relations(inp) -> list:
             for s in (1.7, 1e-4):          # also a badly scaled dataset (other units): no absolute thresholds allowed
                 Sc, _ = fit(s * d, s ** (n - 1) * f1)
                 cmp(Sc, A, f"fit changes under (u, f) -> (s u, s^(n-1) f) with s = {s}")
+        # the same numbers in another MEMORY LAYOUT (Fortran order; a view obtained by fancy-indexing the atom axis
+        # twice): documented as equivalent inputs, the API keeps constructor arrays by reference
+        Fo, _ = fit(np.asfortranarray(d), np.asfortranarray(f1))
+        cmp(Fo, A, "fit depends on the memory layout of the dataset arrays (Fortran order)")
+        pm = rs.permutation(N)
+        inv = np.argsort(pm)
+        Vw, _ = fit(d[:, pm][:, inv], f1[:, pm][:, inv])
+        cmp(Vw, A, "fit depends on the memory layout of the dataset arrays (fancy-indexed view)")
         tiny = 1e-9
         Tn, _ = fit(d, tiny * f1)
         cmp(Tn, {o: tiny * A[o] for o in orders}, "fit not linear in forces for a tiny factor (1e-9)")
